@@ -82,6 +82,9 @@ fn on_enum(inp: &mut syn::DeriveInput) -> syn::Result<proc_macro2::TokenStream> 
 
     let mut rows = Vec::new();
     for ((var, idx), attrs) in data.variants.iter().zip(variants.indices.iter()).zip(&variants.attrs) {
+        // An unsuffixed literal as method receiver would be typed `i32`
+        // and indices above `i32::MAX` would wrap to negative values.
+        let idx      = proc_macro2::Literal::u32_suffixed(idx.val());
         let fields   = Fields::try_from(var.ident.span(), var.fields.iter())?;
         let con      = &var.ident;
         let encoding = attrs.encoding().unwrap_or(enum_encoding);
@@ -198,7 +201,8 @@ fn on_fields(fields: &Fields, has_self: bool, encoding: Encoding) -> syn::Result
                 let cbor_len = cbor_len(field.attrs.cbor_len(), field.attrs.codec());
                 let is_nil   = is_nil(&field.typ, field.attrs.codec());
                 let ident    = &field.ident;
-                let idx      = field.index;
+                // cf. the comment in `on_enum`
+                let idx      = proc_macro2::Literal::u32_suffixed(field.index.val());
                 let tag      = on_tag(&field.attrs);
                 if has_self {
                     if field.is_name {
